@@ -125,7 +125,9 @@ def run(ctx):
         if not (t.get("callee") or "").endswith("cache::to_rrs"):
             continue
         e = gur.call_expr(t, b)
-        arms = [fc[1] for fc in guc.facts_on_all_paths(b) if fc[0] == "is" and fc[1] in ("Wildcard", "Record") and A.peel(fc[2]) == ("param", 3)]
+        # the query types this conversion can run for (however the dispatch is spelt: match arms, if let, matches!)
+        QV7 = [v_["name"] for v_ in prog.adt("dns_types::protocol::types::QueryType")["variants"]]
+        arms = A.possible_variants(gu, guc, lambda x: A.peel(x) == ("param", 3), QV7, b)
         tuples = e[2][2]
         src = next((A.iter_elem_source(x) for x in A.walk(tuples) if A.iter_elem_source(x) is not None), None)
         all_lists = src is not None and any(x[0] == "call" and (x[1].endswith("::values") or "hash_map::Values" in x[1]) for x in A.walk(tuples)) and \
